@@ -36,6 +36,7 @@ type Engine struct {
 
 	specDeclCache map[string]string
 	unstable      map[*ssa.Global]string // globals written or address-taken outside init
+	reg           *regions
 	warnings      []string
 }
 
@@ -87,6 +88,7 @@ func LoadEngine(repo, specDir string) (*Engine, error) {
 		e.funcs[fnKey(f)] = f
 	}
 	e.computeStableGlobals()
+	e.computeRegions()
 	pkgDirs := map[string]string{}
 	for path, p := range e.pkgs {
 		if strings.HasPrefix(path, "github.com/google/badwolf") && len(p.GoFiles) > 0 {
